@@ -46,6 +46,8 @@ def cases(ctx):
         yield {"kind": "cli-dir", "seed": rng.getrandbits(32), "hashseeds": [rng.randint(0, 2 ** 31) for _ in range(ctx.pick(3, 5))]}
     for i in range(ctx.per_shard(ctx.pick(60, 3000))):
         yield {"kind": "nosalt", "seed": rng.getrandbits(32), "feats": rng.choice(subs)}
+    for i in range(ctx.per_shard(ctx.pick(2, 40))):
+        yield {"kind": "manyfiles", "seed": rng.getrandbits(32), "n": rng.choice([40, 70, 130])}
 
 
 def make_target(seed, feats):
@@ -65,6 +67,11 @@ def make_target(seed, feats):
     sec = S.gen_secret(rng, "sha512")
     text.append({"kind": "secret", "form": "arista-username-secret-sha512", "mode": "replace", "cls": "sha512",
                  "line": "username noc secret sha512 " + sec["text"], "parts": [], "lead": "", "trail": "", "eol": "\n"})
+    if rng.random() < 0.5:
+        # an md5-crypt string whose salt field is over-long (pasted / damaged): netconan clamps it itself
+        text.append({"kind": "secret", "form": "cisco-enable-secret-5", "mode": "replace", "cls": "md5",
+                     "line": "enable secret 5 $1$%s$%s" % (S._rand(rng, S._H64, 9, 14), S._rand(rng, S._H64, 22, 22)),
+                     "parts": [], "lead": "", "trail": "", "eol": "\n"})
     src = M.render_text(text)
     return rng, opts, text, src
 
@@ -157,6 +164,8 @@ def check_case(ctx, case):
             return _cli_nosalt(ctx, case, nc)
         if k == "cli-dir":
             return _cli_dir(ctx, case, nc)
+        if k == "manyfiles":
+            return _manyfiles(ctx, case, nc)
         raise HarnessError("unknown kind")
     finally:
         cur = nc.rw.default_reserved_words
@@ -177,6 +186,24 @@ def _inproc(ctx, case, nc, pristine):
         return
     if a != src:
         ctx.distinct((case["seed"], "repeat"))
+    # interpreter-wide settings an embedding application may have changed: warnings raised as errors, DEBUG logging
+    import warnings
+
+    root = logging.getLogger()
+    lvl = root.level
+    try:
+        with warnings.catch_warnings():
+            warnings.simplefilter("error")
+            root.setLevel(logging.DEBUG)
+            w_out = run_inproc(nc, opts, feats, src)
+    finally:
+        root.setLevel(lvl)
+    ctx.count("output_comparisons")
+    ctx.count("interpreter_settings_comparisons")
+    if w_out != a:
+        ctx.violation(case, "depends-on-interpreter-settings:" + mechanism(text, a, w_out),
+                      "with warnings-as-errors and DEBUG logging the output differs: %s" % first_diff(a, w_out))
+        return
     # leftovers of an earlier run at the output path (a longer file with other content) must not show
     with tempfile.TemporaryDirectory(dir=os.path.join(load.VERIF, ".work")) as d:
         ip = os.path.join(d, "in.cfg")
@@ -360,6 +387,40 @@ def _cli_dir(ctx, case, nc):
                           % (outs[0][0], hs, " (into a directory holding an earlier run's files)" if k % 2 else "", n, first_diff(a, b)))
             return
     ctx.distinct((case["seed"], "cli-dir"))
+
+
+def _manyfiles(ctx, case, nc):
+    """A directory of many small files, each with secrets of its own, through anonymize_files three times:
+    identical trees (whatever the tool does to get through many files must not show in the output)."""
+    rng = random.Random(case["seed"])
+    opts = M.options(rng)
+    if not opts["salt"]:
+        opts["salt"] = "s0"
+    trees = []
+    with tempfile.TemporaryDirectory(dir=os.path.join(load.VERIF, ".work")) as d:
+        os.makedirs(os.path.join(d, "in", "sub"))
+        names = [("sub/" if i % 5 == 0 else "") + "r%03d.cfg" % i for i in range(case["n"])]
+        for i, n in enumerate(names):
+            with open(os.path.join(d, "in", n), "w", encoding="utf-8", newline="") as f:
+                f.write("hostname r%d\nusername u%d password Pw%dx%d\nsnmp-server community C%dq%d ro\n ip address 10.%d.%d.1 255.255.255.0\n"
+                        % (i, i, rng.getrandbits(30), i, rng.getrandbits(30), i, i % 250, rng.randrange(250)))
+        for k in range(3):
+            nc.af.anonymize_files(os.path.join(d, "in"), os.path.join(d, "o%d" % k), True, True, salt=opts["salt"])
+            tree = {}
+            for n in names:
+                with open(os.path.join(d, "o%d" % k, n), "rb") as f:
+                    tree[n] = f.read()
+            trees.append(tree)
+    ctx.ev()
+    ctx.count("many_file_runs")
+    for k in (1, 2):
+        ctx.count("output_comparisons")
+        if trees[k] != trees[0]:
+            n = next(x for x in names if trees[k][x] != trees[0][x])
+            ctx.violation(case, "repeat-differs:many-files", "run %d over %d files differs from run 0 in %s: %s"
+                          % (k, len(names), n, first_diff(trees[0][n].decode("utf-8", "replace"), trees[k][n].decode("utf-8", "replace"))))
+            return
+    ctx.distinct((case["seed"], "manyfiles"))
 
 
 def _cli_nosalt(ctx, case, nc):
